@@ -41,7 +41,7 @@ def dispatch (j : Json) : R Json := do
   | "writes" | "writes_prog" | "alias_table" => Einx.Driver.Alias.handle j
   | "equiv" | "equiv_progs" | "kernel" => Einx.Driver.Optimize.handle j
   | "denote_fun" => Einx.Driver.Denote.handle j
-  | "xlate_stb" | "xlate_diag" | "xlate_ids" | "py_prelude" => Einx.Driver.Xlate.handle j
+  | "xlate_stb" | "xlate_diag" | "xlate_ids" | "xlate_unravel" | "py_prelude" => Einx.Driver.Xlate.handle j
   | "update_denote" | "update_lower" | "update_get" | "update_addr" | "np_put" | "np_ufunc_at" | "assignments" =>
     Einx.Driver.Update.handle j
   | k => throw s!"unknown kind {k}"
